@@ -88,7 +88,12 @@ def render_derive(inp):
         "attr_no_parens": "#[token]",
         "greedy_notbool": '#[regex("q.*", allow_greedy = 1)]',
         "two_positional": '#[regex("[a-c]+", %s, %s)]' % (cb, cb),
-    }[attr]
+    }
+    LONG = "\u043f\u0440\u0438\u0432\u0435\u0442\u4e16\u754c\u0437\u0434\u0440\u0430\u0432\u0441\u0442\u0432\u0443\u0439\u0442\u0435\u4f60\u597d\u0434\u043e\u0431\u0440\u044b\u0439\U0001F600\u0432\u0435\u0447\u0435\u0440\u0441\u043f\u043e\u043a\u043e\u0439\u043d\u043e\u0439"
+    for pad in range(4):
+        A["rx_nullable_long%d" % pad] = '#[regex("(%s%s|q)*")]' % ("a" * pad, LONG)
+        A["rx_conflict_long%d" % pad] = '#[token("%s%s", priority = 5)]\n    #[regex("%s%s|zz", priority = 5)]' % ("a" * pad, LONG, "a" * pad, LONG)
+    A = A[attr]
     E = {
         "plain": [], "extras": ["#[logos(extras = u32)]"], "error_ty": ["#[logos(error = MyErr)]"],
         "error_cb": ["#[logos(error(MyErr, callback = |_| MyErr))]"],
